@@ -155,17 +155,9 @@ def compareHandler : Handler := fun payload impl =>
 
 /-! ## c08.sort -/
 
-mutual
-  /-- canonical printing of sort/2 answers: -0.0 as 0.0 (which of two `=` elements survives the
-      duplicate removal depends on Go's unstable sort.Slice; `set_spec` proves uniqueness up to `=` only) -/
-  def normZero : Term → Term
-    | .flt b => if b = 0x8000000000000000 then .flt 0 else .flt b
-    | .app f as => .app f (normZeroArgs as)
-    | t => t
-  def normZeroArgs : Args → Args
-    | .nil => .nil
-    | .cons t ts => .cons (normZero t) (normZeroArgs ts)
-end
+/-! canonical printing of sort/2 answers: -0.0 as 0.0 (`OrderSpec.normZero`): which of two `=` elements
+    survives the duplicate removal depends on Go's unstable sort.Slice; `set_spec` proves uniqueness up
+    to `=` only, `set_canonical` that the normalised answers coincide. -/
 
 /-- unification of the answer with a `Sorted` argument made of fresh distinct variables, list cells
     and `[]` only (the generator's patterns): succeeds iff the skeleton fits; `Sorted` then IS the answer -/
@@ -192,7 +184,11 @@ def sortModel (kind : String) (list sorted : Term) : String :=
   | .error e => errOut e
   | .ok ans =>
     if fitsPattern (2 * ans.size + 4) sorted ans then
-      "ans " ++ (if kind == "keysort" then ans else normZero ans).wire
+      "ans " ++ (if kind == "keysort" then ans else normZero ans).wire ++
+        -- re-runs on the real engine must agree with sort_idempotent / sort_perm_invariant / keysort stability
+        (match sorted with
+         | .var _ => if kind == "keysort" then " ; idem=same" else " ; idem=same perm=same"
+         | _ => "")
     else "false"
 
 /-! ### verdict for the sorting built-ins -/
@@ -257,7 +253,10 @@ def judgeSort (kind : String) (list sorted : Term) (impl : String) : String :=
       let need := if kind == "keysort" then es.length else classes.length
       if kind == "setof" && es.isEmpty then "ok"
       else if ps.length > need then "ok" else "FAIL the call failed"
-    | "ans" :: rest =>
+    | "ans" :: rest0 =>
+      let rest := rest0.takeWhile (· != ";")
+      if rest0.contains "idem=diff" then "FAIL sorting the answer again changed it (sort_idempotent / stability)" else
+      if rest0.contains "perm=diff" then "FAIL sorting the reversed list gave a different answer (sort_perm_invariant)" else
       match Term.ofWire (" ".intercalate rest) with
       | none => "FAIL unparsable answer"
       | some ans =>
